@@ -71,7 +71,7 @@ impl ScnB {
     pub fn eff(&mut self, kind: EffKind, panics: bool, stall: Stall) -> EffSpec {
         let id = self.next_eff;
         self.next_eff += 1;
-        EffSpec { id, kind, panics, stall }
+        EffSpec { id, kind, panics, stall, ops: vec![] }
     }
     pub fn iter_id(&mut self) -> u32 {
         let i = self.next_it;
